@@ -27,7 +27,10 @@ MapKeys == {"a", "b", "0"}
 StructFields == {"x", "y"}
 ArrayLen == 2
 MaxSlice == 3
-Kinds == {"scalar", "ptr", "slice", "array", "map", "struct", "pstruct", "pstructp"}
+Kinds == {"scalar", "ptr", "slice", "pslice", "array", "map", "struct", "pstruct", "pstructp"}
+\* "pslice": slice of pointers to primitives; a nil element (Nil) is encoded as a tombstone for its
+\* index, exactly like an element that was removed - so a value must not end in Nil
+Nil == -9
 \* "pstructp": pointer to a flat struct whose field y is itself a pointer to a primitive
 \* (x: Atoms, y: <<>> | <<atom>>) - the only shape in which single fields carry tombstones
 PFieldVals == {<<>>} \cup {<<a>> : a \in Atoms}
@@ -57,6 +60,7 @@ ValuesOf(kind) ==
     CASE kind = "scalar"  -> Atoms
       [] kind = "ptr"     -> {<<>>} \cup {<<a>> : a \in Atoms}
       [] kind = "slice"   -> UNION {[1..n -> Atoms] : n \in 0..MaxSlice}
+      [] kind = "pslice"  -> {v \in UNION {[1..n -> {Nil, 1, 2}] : n \in 0..MaxSlice} : Len(v) = 0 \/ v[Len(v)] # Nil}
       [] kind = "array"   -> [1..ArrayLen -> Atoms]
       [] kind = "map"     -> UNION {[S -> Atoms] : S \in SUBSET MapKeys}
       [] kind = "struct"  -> [StructFields -> Atoms]
@@ -66,6 +70,7 @@ ZeroOf(kind) ==
     CASE kind = "scalar"  -> 0
       [] kind = "ptr"     -> <<>>
       [] kind = "slice"   -> <<>>
+      [] kind = "pslice"  -> <<>>
       [] kind = "array"   -> [i \in 1..ArrayLen |-> 0]
       [] kind = "map"     -> [k \in {} |-> 0]
       [] kind = "struct"  -> [f \in StructFields |-> 0]
@@ -86,6 +91,7 @@ Enc(kind, v, rev) ==
     CASE kind = "scalar"  -> <<Pt("", v, 0)>>
       [] kind = "ptr"     -> IF v = <<>> THEN <<Pt("", 0, 1)>> ELSE <<Pt("", v[1], 0)>>
       [] kind \in {"slice", "array"} -> [i \in 1..Len(v) |-> Pt(IdxKey(i - 1), v[i], 0)]
+      [] kind = "pslice"  -> [i \in 1..Len(v) |-> IF v[i] = Nil THEN Pt(IdxKey(i - 1), 0, 1) ELSE Pt(IdxKey(i - 1), v[i], 0)]
       [] kind = "map"     -> LET ks == SeqOfKeys(DOMAIN v, rev) IN [i \in 1..Len(ks) |-> Pt(ks[i], v[ks[i]], 0)]
       [] kind = "struct"  -> LET ks == SeqOfKeys(StructFields, rev) IN [i \in 1..Len(ks) |-> Pt(ks[i], v[ks[i]], 0)]
       [] kind = "pstruct" -> LET ks == SeqOfKeys(StructFields, rev) IN
@@ -102,17 +108,18 @@ Bad == IF AsCoded THEN <<"panic", <<>>>> ELSE Err
 
 SetMaxOf(S) == IF S = {} THEN -1 ELSE CHOOSE x \in S : \A y \in S : y <= x
 
-RECURSIVE SliceApply(_, _, _)
-\* fold the points into the (already grown) slice/array; "panic" marker = <<-1>>
-SliceApply(cur, pts, i) ==
+RECURSIVE SliceApply(_, _, _, _)
+\* fold the points into the (already grown) slice/array; "panic" marker = <<-1>>; zero: the element
+\* type's zero value (0, or Nil for pointers)
+SliceApply(cur, pts, i, zero) ==
     IF i > Len(pts) THEN cur
     ELSE LET p == pts[i]
              idx == IF p.key = "" THEN 0 ELSE KeyIdx(p.key)
          IN IF TombSet(p.tomb)
-            THEN IF idx >= Len(cur) THEN SliceApply(cur, pts, i + 1)
-                 ELSE SliceApply([cur EXCEPT ![idx + 1] = 0], pts, i + 1)
+            THEN IF idx >= Len(cur) THEN SliceApply(cur, pts, i + 1, zero)
+                 ELSE SliceApply([cur EXCEPT ![idx + 1] = zero], pts, i + 1, zero)
             ELSE IF idx >= Len(cur) THEN <<-1>>      \* v.Index(index) out of range
-                 ELSE SliceApply([cur EXCEPT ![idx + 1] = p.val], pts, i + 1)
+                 ELSE SliceApply([cur EXCEPT ![idx + 1] = p.val], pts, i + 1, zero)
 
 RECURSIVE TrimLast(_, _, _)
 \* deleted: descending sequence of tombstoned indexes; returns the new last index
@@ -137,10 +144,11 @@ DecSliceLike(kind, prior, pts) ==
     IN IF notIdx THEN Err
        ELSE IF maxInt > 1000 THEN Err
        ELSE IF kind = "array" /\ maxInt > ArrayLen - 1 THEN Err
-       ELSE LET grown == IF kind = "slice" /\ maxInt > Len(prior) - 1
-                         THEN [i \in 1..(maxInt + 1) |-> IF i <= Len(prior) THEN prior[i] ELSE 0]
+       ELSE LET zero == IF kind = "pslice" THEN Nil ELSE 0
+                grown == IF kind \in {"slice", "pslice"} /\ maxInt > Len(prior) - 1
+                         THEN [i \in 1..(maxInt + 1) |-> IF i <= Len(prior) THEN prior[i] ELSE zero]
                          ELSE prior
-                after == SliceApply(grown, pts, 1)
+                after == SliceApply(grown, pts, 1, zero)
             IN IF after = <<-1>> THEN Bad
                ELSE IF kind = "array" THEN Ok(after)
                ELSE LET del == DescSeq({IF pts[i].key = "" THEN 0 ELSE KeyIdx(pts[i].key) :
@@ -191,7 +199,7 @@ Dec(kind, prior, pts) ==
     IF pts = <<>> THEN Ok(prior)      \* no group for this type: field untouched
     ELSE CASE kind = "scalar"  -> Ok(ScalarApply(prior, pts, 1))
            [] kind = "ptr"     -> Ok(PtrApply(prior, pts, 1))
-           [] kind \in {"slice", "array"} -> DecSliceLike(kind, prior, pts)
+           [] kind \in {"slice", "pslice", "array"} -> DecSliceLike(kind, prior, pts)
            [] kind = "map"     -> Ok(MapApply(prior, pts, 1))
            [] kind = "struct"  -> Ok(StructApply(prior, pts))
            [] kind = "pstruct" ->
@@ -207,10 +215,11 @@ Dec(kind, prior, pts) ==
 Diff(kind, b, a, rev) ==
     CASE kind = "scalar"  -> IF b = a THEN <<>> ELSE <<Pt("", a, 0)>>
       [] kind = "ptr"     -> IF b = a THEN <<>> ELSE IF a = <<>> THEN <<Pt("", 0, 1)>> ELSE <<Pt("", a[1], 0)>>
-      [] kind \in {"slice", "array"} ->
+      [] kind \in {"slice", "pslice", "array"} ->
             LET upd == SelectSeq([i \in 1..Len(a) |-> i], LAMBDA i : i > Len(b) \/ a[i] # b[i])
                 del == IF Len(b) > Len(a) THEN [j \in 1..(Len(b) - Len(a)) |-> Len(b) - j] ELSE <<>>  \* descending 0-based
-            IN [i \in 1..Len(upd) |-> Pt(IdxKey(upd[i] - 1), a[upd[i]], 0)]
+            IN [i \in 1..Len(upd) |-> IF kind = "pslice" /\ a[upd[i]] = Nil THEN Pt(IdxKey(upd[i] - 1), 0, 1)
+                                      ELSE Pt(IdxKey(upd[i] - 1), a[upd[i]], 0)]
                \o [j \in 1..Len(del) |-> Pt(IdxKey(del[j]), 0, 1)]
       [] kind = "map"     ->
             LET ks == SeqOfKeys({k \in DOMAIN a : k \notin DOMAIN b \/ a[k] # b[k]}, rev)
